@@ -79,7 +79,7 @@ RULE = ("index: exhaustive enumeration of all 2^(q*d) multi-indices for every (q
         "deep: q 1..62 (half of the draws in 48..62 or at a word-size edge), d 1..3, 4..8 (thorough 15) multi-indices per block from the "
         "families corner / 2^k +- small / random bits / spanning all q digits / mostly ones / mostly zeros, always with the "
         "rows [2^q - 1]*d and [0]*d, 1..3 blocks per case; oracle = Python big-integer shift/mask; non-trivial = q >= 13 (beyond "
-        "the enumeration). reject: random non-power-of-two mode sizes 3..40(300), d 2..3 (and the d = 1 spellings). Non-trivial = q >= 2 and "
+        "the enumeration). reject: random non-power-of-two mode sizes 3..40(300), d 2..3 (and the d = 1 spellings), for the index map also sizes 2^k +- 1, 2^k + 3, 2^k + 2^(k/3), 2^k + 2^(k-1) - 1 with k 20..62 as int / np.int64 (and 2^k itself accepted). Non-trivial = q >= 2 and "
         "d >= 2 (index, convert, merge), every case of reject; distinct by SHA-1 of the case. walk: 16 (thorough 32) fixed "
         "visiting orders of all (q, d) with q*d <= 12 (16): descending, zigzag, there-and-back, arithmetic strides; every visit "
         "enumerates all 2^(q*d) multi-indices in batch, a strided sample in the single spellings, and the invalid sizes "
@@ -1064,6 +1064,16 @@ def prop_reject(case, ctx):
     ctx.raises(ValueError, teneva.ind_tt_to_qtt, I, n)
     ctx.raises(ValueError, teneva.ind_tt_to_qtt, I[0], n)
     ctx.raises(ValueError, teneva.ind_tt_to_qtt, [I[0][0]], n)                        # d = 1
+    # index maps need no tensor: sizes next to a LARGE power of two (their float logarithm rounds to an integer) are not powers of two
+    k = 20 + case["seed"] % 43                                                       # 2^20 .. 2^62
+    for delta in (1, -1, 3, 1 << (k // 3), (1 << (k - 1)) - 1 if k < 62 else -5):
+        big = (1 << k) + delta
+        for sp in (int, np.int64):
+            ctx.raises(ValueError, teneva.ind_tt_to_qtt, [[i % 7 for i in row] for row in I], sp(big))
+    bits = ctx.lib(teneva.ind_tt_to_qtt, [[(1 << k) - 1] * d, [5 % (1 << k)] * d], 1 << k)
+    ctx.check(isinstance(bits, np.ndarray) and bits.shape == (2, d * k) and bool(np.all(bits[0] == 1)) and bits[1].tolist() == ([1, 0, 1] + [0] * (k - 3)) * d,
+              "ind_tt_to_qtt with a large power-of-two mode size: wrong bit strings", k=k)
+    ctx.label("big_size:2^%d" % (k // 10 * 10))
     Y = tt([n] * d)
     for G in Y:
         ctx.raises(ValueError, teneva.core_tt_to_qtt, G)
